@@ -252,8 +252,32 @@ def _infer_all(root: ast.Module) -> Set[str] | None:
     return names if defined else None
 
 
+def _trace_relative_module_source_file(
+    module: str | None, level: int, package_path: str | None
+) -> str | None:
+    """Find the source file of a module that is imported relative to package_path."""
+    if package_path is None:
+        return None
+
+    path = Path(package_path)
+    for _ in range(level - 1):
+        path = path.parent
+    for part in (module or "").split("."):
+        if part:
+            path = path / part
+
+    if (path / "__init__.py").is_file():
+        return str(path / "__init__.py")
+    if path.with_suffix(".py").is_file():
+        return str(path.with_suffix(".py"))
+
+    return None
+
+
 @functools.lru_cache(maxsize=100_000)
-def trace_origin(name: str, source: str, *, __all__: bool = False) -> _TraceResult | None:
+def trace_origin(
+    name: str, source: str, *, __all__: bool = False, package_path: str | None = None
+) -> _TraceResult | None:
     """Trace the origin of a name in python source code.
 
     Args:
@@ -261,6 +285,8 @@ def trace_origin(name: str, source: str, *, __all__: bool = False) -> _TraceResu
         source (str): Source code to trace name in
         __all__ (bool, optional): If True, and __all__ is defined in source,
             use __all__ as a filter for importable names. Defaults to False.
+        package_path (str, optional): Directory of the file that source is from, which is what
+            relative imports in it are relative to. Without it they are not traced.
 
     Returns:
         (source, ast, lineno) of the origin of name in source.
@@ -310,16 +336,20 @@ def trace_origin(name: str, source: str, *, __all__: bool = False) -> _TraceResu
                     if name in exports:
                         return _TraceResult(core.get_code(node, source), node.lineno, node)
 
-                if node.module is None or node.level:
-                    continue  # Relative imports cannot be traced from here
-
-                origin = _trace_module_source_file(node.module)
+                if node.level:
+                    origin = _trace_relative_module_source_file(
+                        node.module, node.level, package_path
+                    )
+                elif node.module is None:
+                    continue
+                else:
+                    origin = _trace_module_source_file(node.module)
 
                 # This is likely the best way to truly check the __all__ of a module,
                 # but if a user has forgotten the `if __name__ == "__main__":` guard,
                 # we might end up executing code that we shouldn't if we try that. So
                 # only builtins are imported this way.
-                if origin in {"frozen", "built-in"}:
+                if origin in {"frozen", "built-in"} and not node.level:
                     module = importlib.import_module(node.module)
                     exports = getattr(
                         module, "__all__", [x for x in dir(module) if not x.startswith("_")]
@@ -342,7 +372,12 @@ def trace_origin(name: str, source: str, *, __all__: bool = False) -> _TraceResu
                 with origin.open("r", encoding="utf-8") as stream:
                     module_source = stream.read()
 
-                if trace_origin(name, module_source, __all__=True):
+                if module_source == source:
+                    continue  # from . import *
+
+                if trace_origin(
+                    name, module_source, __all__=True, package_path=str(origin.parent)
+                ):
                     return _TraceResult(core.get_code(node, source), node.lineno, node)
 
         if isinstance(node, (ast.FunctionDef, ast.AsyncFunctionDef, ast.ClassDef)):
